@@ -395,6 +395,8 @@ def gen_batch(rng, nstructs=14, can=False, granular_share=0.0, big=False):
             # ids from a small pool half of the time: several bindings share an id on different buses (and now and then
             # on the same bus, where the first one wins in both wrappers and in the model)
             cid = rng.choice([0, 0, 7, 100, 1000, 2047]) if rng.random() < 0.5 else rng.randint(0, 2047)
+            if rng.random() < 0.15:
+                cid = rng.choice([65535, 65536, 70000, 0x18FF50E5, 2 ** 29 - 1, 65536 + 7])  # extended (29-bit) identifiers
             can_b = f'impl can for {name} {{\n    id: {cid},\n    bus: "{bus}",\n}}'
             if rng.random() < 0.3:
                 # a binding of another protocol that carries an id and a bus too, before or after the CAN one: it is no CAN
@@ -1005,7 +1007,7 @@ def exercise_can(rep, rng, d, g, build, jobs, model):
                                what="CAN frame does not carry the binding's bus / id / DLC / canonical payload"))
             continue
         # decode the frame back, and frames with a non-matching (id, bus)
-        frames = [lf, dict(lf, sid=(lf["sid"] + 1) % 2048), dict(lf, bus=[122, 122, 0, 0]),
+        frames = [lf, dict(lf, sid=lf["sid"] + 1), dict(lf, sid=lf["sid"] % 65536 if lf["sid"] > 65535 else lf["sid"] + 65536), dict(lf, bus=[122, 122, 0, 0]),
                   dict(lf, bus=(lf["bus"][:1] + [0, 0, 0]) if lf["bus"][1] else (lf["bus"][:1] + [113, 0, 0]))]
         if n in getattr(d, "foreign", {}):
             frames.append(dict(lf, sid=d.foreign[n][0], bus=d.foreign[n][1]))
